@@ -270,16 +270,39 @@ def check_case(case, opts):
         uniq = [p for p in pack if content_count[vcommon.jdumps(by[p]["content"])] == 1]
         # 1. data placement follows the pack order
         lastpos, lastp = -1, None
+        # a block run whose bytes also occur as blocks of another file may legitimately be stored there (deduplication compares
+        # bytes, e.g. two one-byte blocks of dont_fragment files): only files whose first data block is unique have a place of their own
+        blockset = {}
+        firstblk = {}
+        for p in pack:
+            c = treemodel.content_bytes(by[p]["content"], B)
+            blks = [c[k:k + B] for k in range(0, len(c), B)]
+            firstblk[p] = next((b for b in blks if any(b)), None)
+            for b in set(blks):
+                blockset[b] = blockset.get(b, 0) + 1
         for p in uniq:
             i = ino[p]
+            if firstblk[p] is None or blockset.get(firstblk[p], 0) > 1:
+                continue
             if any(w != 0 for w in i.block_sizes):
                 if i.blocks_start < lastpos:
                     raise Violation("data of %r (priority %d) is stored before data of %r (priority %d) although it is packed later" % (
                         p, prio[p], lastp, prio[lastp]), dict(pack=pack, prio={k.decode("latin-1"): v for k, v in prio.items()}), sig="order-blocks")
                 lastpos, lastp = i.blocks_start, p
         lastf, lastp = (-1, -1), None
+        # a tail end whose bytes equal another file's tail end is legitimately stored where that one is (deduplication of
+        # fragments works on the bytes, e.g. two one-byte tails): only tails with unique bytes have a place of their own
+        tails = {}
+        for p in pack:
+            c = treemodel.content_bytes(by[p]["content"], B)
+            tails[p] = c[len(c) // B * B:] if len(c) % B else (c if len(c) < B else b"")
+        tail_count = {}
+        for t in tails.values():
+            tail_count[t] = tail_count.get(t, 0) + 1
         for p in uniq:
             i = ino[p]
+            if tail_count[tails[p]] > 1:
+                continue
             if i.frag_idx != sqfsimg.NOFRAG:
                 cur = (i.frag_idx, i.frag_off)
                 if cur < lastf:
